@@ -26,6 +26,10 @@ func genC35(tier string, seed uint64, idx int) *simkit.Plan {
 	rng := simkit.NewRand(seed)
 	p := &simkit.Plan{Engine: "cluster"}
 	p.SetCS("dc", []string{"", "dc1", "dc1", "dc2"}[rng.Intn(4)])
+	if idx%4 == 3 {
+		genC35Session(rng, p)
+		return p
+	}
 	readers := rng.Range(2, 3)
 	p.SetC("readers", int64(readers))
 	vids := rng.Range(1, 3)
@@ -52,6 +56,10 @@ func genC35(tier string, seed uint64, idx int) *simkit.Plan {
 
 func execC35(r *simkit.Run) {
 	p := r.Plan
+	if p.C("mode") == 1 {
+		execC35Session(r)
+		return
+	}
 	dc := p.CS("dc")
 	mc := wdclient.NewMasterClient(grpc.WithInsecure(), "client", "client-host", 0, dc, nil)
 	dcOf := func(srv int64) string { return []string{"dc1", "dc2", "", "dc1", "dc2"}[srv%5] }
